@@ -6,7 +6,10 @@ patch="$1"; tier="$2"; shift 2
 cd /repo || exit 2
 if [ -n "$(git status --porcelain)" ]; then echo "/repo not clean"; exit 2; fi
 if ! git apply "$patch"; then echo "patch does not apply"; exit 2; fi
-trap 'git -C /repo checkout -q -- . ; git -C /repo clean -fdq -- . >/dev/null 2>&1' EXIT
+bak=$(mktemp -d /tmp/evid-bak.XXXXXX)
+cp -r /verif/evidence/. "$bak"/
+# evidence written while a seeded change is applied is not evidence about /repo: put the old files back
+trap 'git -C /repo checkout -q -- . ; git -C /repo clean -fdq -- . >/dev/null 2>&1; rm -rf /verif/evidence; mkdir -p /verif/evidence; cp -r "$bak"/. /verif/evidence/; rm -rf "$bak"' EXIT
 cd /verif
 for id in "$@"; do
   out=$(./vcheck "$id" "$tier" 2>&1); rc=$?
